@@ -33,6 +33,14 @@ class SwitchBreak(Exception):
     pass
 
 
+class NeedChoice(Exception):
+    pass
+
+
+class TokenEnd(Exception):
+    """`break` out of the character loop: the token ends at this character"""
+
+
 class Returned(Exception):
     def __init__(self, value):
         self.value = value
@@ -65,6 +73,8 @@ class Step(object):
         self.cur = self.nxt = None
         self.depth = 0
         self.in_switch = 0
+        self.oracle, self.oracle_pos = [], 0
+        self.resolving = set()
 
     # ---- values
     def truth(self, v):
@@ -76,6 +86,13 @@ class Step(object):
             return v[1]
         if v[0] in ("ptr", "dst"):
             return True
+        if v[0] == "unk":
+            # a test of something the step does not depend on (is a delimiter set given?): both answers are explored by run(),
+            # and must lead to the same outcome
+            if self.oracle_pos < len(self.oracle):
+                self.oracle_pos += 1
+                return self.oracle[self.oracle_pos - 1]
+            raise NeedChoice()
         raise Undecided("truth of %r" % (v,))
 
     def at(self, k):
@@ -108,6 +125,26 @@ class Step(object):
                 return self.env[d]
             if n.get("tp"):
                 return ("unk",) if n.get("rk") in ("param", "local") else ("dst",)
+            if n.get("rk") == "local" and d not in self.resolving:
+                # a local set once before the loop (dquote = self->dquote): its defining expression
+                from .facts import walk as _walk
+                defs = []
+                for y in _walk(self.fn.body):
+                    if y.get("k") == "assign" and X.strip(y["ch"][0]).get("d") == d:
+                        defs.append(y["ch"][1] if y.get("op") == "=" else None)
+                    elif y.get("k") == "decl":
+                        defs += [dc["init"] for dc in y.get("decls", ()) if dc["d"] == d and dc.get("init") is not None]
+                    elif y.get("k") == "un" and y.get("op") in ("++", "--") and X.strip(y["ch"][0]).get("d") == d:
+                        defs.append(None)
+                if len(defs) == 1 and defs[0] is not None:
+                    self.resolving.add(d)
+                    try:
+                        v = self.ev(defs[0])
+                    finally:
+                        self.resolving.discard(d)
+                    if v[0] == "int" and (n.get("tw") or 32) == 8:
+                        v = ("ch", LITERAL.get(v[1], "OTHER"))
+                    return v
             raise Undecided("value of %s" % n.get("n"))
         if k == "member":
             nm = n.get("n")
@@ -134,6 +171,8 @@ class Step(object):
                     return old if n.get("post") else new
                 if t.get("k") == "ref" and t.get("tp"):
                     return ("dst",)
+                if t.get("k") == "ref" and t.get("rk") in ("local", "param") and t.get("d") not in (self.cursor, self.quote):
+                    return ("unk",)           # an output index / counter the step does not depend on
                 raise Undecided("++ of %s" % X.render(t)[:20])
             if op == "-" and len(n["ch"]) == 1:
                 v = self.ev(n["ch"][0])
@@ -145,6 +184,8 @@ class Step(object):
             i = self.ev(n["ch"][1])
             if p[0] == "ptr" and i[0] == "int":
                 return self.at(p[1] + i[1])
+            if i[0] == "ptr" and p[0] in ("unk", "dst"):
+                return self.at(i[1])          # text[pos + k]: the cursor is an index into the text
             raise Undecided("index")
         if k == "bin":
             op = n.get("op")
@@ -185,18 +226,6 @@ class Step(object):
             raise Undecided("operator %s" % op)
         if k == "cond":
             c = self.ev(n["ch"][0])
-            if c[0] == "unk":
-                # a test of something the step does not depend on (is a delimiter set given?): both arms must agree
-                e0, m0 = dict(self.env), list(self.emits)
-                a = self.ev(n["ch"][1])
-                ea, ma = dict(self.env), list(self.emits)
-                self.env, self.emits = dict(e0), list(m0)
-                b = self.ev(n["ch"][2])
-                ta = self.truth(a) if a[0] != "ch" else a
-                tb = self.truth(b) if b[0] != "ch" else b
-                if ta != tb or ea != self.env or ma != self.emits:
-                    raise Undecided("arms of a test on an unrelated value differ")
-                return ("bool", ta) if not isinstance(ta, tuple) else ta
             return self.ev(n["ch"][1] if self.truth(c) else n["ch"][2])
         if k == "assign":
             t = X.strip(n["ch"][0])
@@ -305,7 +334,9 @@ class Step(object):
         if k == "break":
             if self.in_switch:
                 raise SwitchBreak()
-            raise Undecided("break out of the token loop inside the step")
+            if self.depth:
+                raise Undecided("break inside a helper")
+            raise TokenEnd()
         if k == "switch":
             return self.switch(s)
         if k in ("while", "for", "do", "goto"):
@@ -361,15 +392,39 @@ class Step(object):
         return None
 
     def run(self, loop, cur, nxt, quote):
+        """outcome of one configuration; tests of values the step does not depend on are explored both ways"""
+        results = []
+        work = [[]]
+        while work:
+            vec = work.pop()
+            self.oracle, self.oracle_pos = vec, 0
+            try:
+                results.append(self._run_once(loop, cur, nxt, quote))
+            except NeedChoice:
+                if len(vec) >= 6:
+                    raise Undecided("too many tests of unrelated values")
+                work.append(vec + [True])
+                work.append(vec + [False])
+        if any(r != results[0] for r in results[1:]):
+            raise Undecided("the outcome depends on a value the step should not depend on")
+        return results[0]
+
+    def _run_once(self, loop, cur, nxt, quote):
         self.cur, self.nxt = cur, nxt
         self.env = {self.cursor: ("ptr", 0), self.quote: ("ch", quote)}
         self.emits = []
         self.depth = 0
         self.in_switch = 0
+        if loop.get("cond") is not None:
+            # evaluated for its verdict and for its assignments ((c = text[pos]) != 0)
+            if not self.truth(self.ev(loop["cond"])):
+                return "END"
         try:
             self.stmt(loop["body"])
         except StepEnd:
             pass
+        except TokenEnd:
+            return "END"
         if loop.get("inc") is not None:
             self.ev(loop["inc"])
         adv = self.env[self.cursor]
@@ -388,25 +443,48 @@ class Step(object):
 
 
 def find_token_loop(fn):
-    """the inner loop whose condition tests the current character and the quote state: returns (loop, cursor decl, quote decl)"""
+    """the inner loop whose condition tests the current character and the quote state, in fn or in a unit-local helper it hands
+    the copying of one token to: returns (loop, cursor decl, quote decl, owning function)"""
     from .facts import walk
-    for lp in walk(fn.body):
-        if lp.get("k") not in ("for", "while") or lp.get("cond") is None:
+    from .listrules import unit_closure
+    for g in unit_closure(fn):
+        if g.body is None:
             continue
-        cur_d = None
-        quote_d = None
-        for x in walk(lp["cond"]):
-            if x.get("k") == "un" and x.get("op") == "*":
-                t = X.strip(x["ch"][0])
-                if t.get("k") == "ref" and t.get("rk") in ("local", "param") and cur_d is None:
-                    cur_d = t["d"]
-            if x.get("k") == "ref" and not x.get("tp") and x.get("rk") == "local" and (x.get("tw") or 0) <= 32 and quote_d is None and not (x.get("m")):
-                quote_d = x["d"]
-        if cur_d is None or quote_d is None:
-            continue
-        # the body must toggle the quote variable
-        if any(y.get("k") == "assign" and X.strip(y["ch"][0]).get("d") == quote_d for y in walk(lp["body"])):
-            return lp, cur_d, quote_d
+        for lp in walk(g.body):
+            if lp.get("k") not in ("for", "while") or lp.get("cond") is None:
+                continue
+            cur_d = None
+            quote_d = None
+            for x in walk(lp["cond"]):
+                if x.get("k") == "un" and x.get("op") == "*":
+                    t = X.strip(x["ch"][0])
+                    if t.get("k") == "ref" and t.get("rk") in ("local", "param") and cur_d is None:
+                        cur_d = t["d"]
+                if x.get("k") == "index" and cur_d is None:
+                    t = X.strip(x["ch"][1])
+                    if t.get("k") == "ref" and t.get("rk") in ("local", "param") and not t.get("tp"):
+                        cur_d = t["d"]          # text[pos]: the index is the cursor
+            if cur_d is None:
+                continue
+            # the quote state: a small local that the loop both resets to 0 and sets from the current character
+            zeroed, set_ = set(), set()
+            for y in walk(lp["body"]):
+                if y.get("k") == "assign" and y.get("op") == "=":
+                    t = X.strip(y["ch"][0])
+                    if t.get("k") == "ref" and t.get("rk") == "local" and not t.get("tp") and (t.get("tw") or 0) <= 32 and t.get("d") != cur_d:
+                        if X.const_val(y["ch"][1]) == 0:
+                            zeroed.add(t["d"])
+                        else:
+                            set_.add(t["d"])
+            cand = sorted(zeroed & set_)
+            if not cand:
+                continue
+            # an inner loop of the token loop would be found first by the walk only if it has these too; prefer the innermost
+            quote_d = cand[0]
+            inner = [z for z in walk(lp["body"]) if z.get("k") in ("for", "while") and z is not lp]
+            if any(True for z in inner if any(y.get("k") == "assign" and X.strip(y["ch"][0]).get("d") == quote_d for y in walk(z.get("body") or {}))):
+                continue        # the toggling happens in a nested loop: that one is the character loop
+            return lp, cur_d, quote_d, g
     return None
 
 
